@@ -271,11 +271,12 @@ CHECKS = {
              'lists under 64 elements) is proved to return a permutation that is non-decreasing in every class order the '
              'comparison is compatible with - even though tuple "<" is not a strict weak order on order-equal versions - so '
              'for packages of one name the selected one is an input no other input exceeds in dpkg order; mixed names raise '
-             'ValueError. The model is co-executed with package.py on generated names, all strings of length <=5/6 over a small '
+             'ValueError; the per-name variant returns, for any order of the input files, one entry per name present, each an '
+             'input of that name that no other input of that name exceeds (the sort is name-major, so groupby forms one group '
+             'per name - proved from the sort specification). The model is co-executed with package.py on generated names, all strings of length <=5/6 over a small '
              'alphabet, and lists in all orders (exact equality of the selected archive).',
         note=TRUST + 'Environment: list.sort is modelled for fewer than 64 elements (count_run + binarysort of CPython 3.12); '
-             'os.path.basename/splitext are modelled and co-executed. The per-name variant (find_latest_versions) is covered by '
-             'co-execution and the executable statement, its theorem is not proved.',
+             'os.path.basename/splitext and itertools.groupby are modelled and co-executed.',
         technique='Rocq proof (sort invariant, string lemmas) + differential co-execution against the Python code',
     ),
     'C18': dict(
